@@ -18,7 +18,13 @@ BigK(j, k) == [i \in 1..(MaxLen - 1) |-> IF i - 1 < j THEN 0 ELSE IF i - 1 < k T
 \* "diag": dyadic models (entries are exponents k_i, probabilities 2^k_i summing to 2^P)
 DyadicSum(s) == SumSeq([i \in 1..Len(s) |-> Pow2(s[i])])
 Refs(n) == { q \in [1..n -> {0, 1, 2, 4}] : SumSeq(q) = 4 }
-Entries == IF Kind = "diag" THEN 0..(P - 1) ELSE IF Kind = "fixed" THEN 0..(Pow2(B) - 1) ELSE IF Kind = "leakybig" THEN BigPos ELSE 0..MaxVal
+\* "floatclass": entries are classes of floating point weights
+\*   0 zero, 1 one, 2 tiny (1e-30), 3 big (1e30), 4 negative, 5 NaN, 6 +infinity, 7 three
+FloatBad(s) == \E i \in 1..Len(s) : s[i] \in {4, 5, 6}
+FloatAllZero(s) == \A i \in 1..Len(s) : s[i] = 0
+\* documented preconditions of the float constructors: non-negative finite weights with positive finite sum, 2 <= n
+FloatMustReject(s) == FloatBad(s) \/ FloatAllZero(s) \/ Len(s) < 2
+Entries == IF Kind = "floatclass" THEN 0..7 ELSE IF Kind = "diag" THEN 0..(P - 1) ELSE IF Kind = "fixed" THEN 0..(Pow2(B) - 1) ELSE IF Kind = "leakybig" THEN BigPos ELSE 0..MaxVal
 Init == seq = <<>>
 Next == \E x \in Entries :
           /\ Len(seq) < (IF Kind = "leakybig" THEN 2 ELSE MaxLen)
@@ -64,9 +70,11 @@ EmitDiag == (Kind = "diag" /\ Len(seq) >= 2 /\ DyadicSum(seq) = Pow2(P)) => Prin
 \* textbook identities that the exact values must satisfy (Gibbs: both KL divergences are non-negative)
 DiagLaws == (Kind = "diag" /\ Len(seq) >= 2 /\ DyadicSum(seq) = Pow2(P)) =>
     \A r \in Refs(Len(seq)) : KlNum(seq, r, P) >= 0 /\ ((\A i \in 1..Len(seq) : r[i] > 0) => RevKlNum(seq, r, P) >= 0)
+EmitFloatClass == (Kind = "floatclass" /\ Len(seq) >= 1) => PrintT(<<"CASE", ToJson(
+    [k |-> "floatclass", B |-> B, P |-> P, classes |-> seq, must_reject |-> FloatMustReject(seq), fits |-> Len(seq) + 1 < Pow2(P)])>>)
 EmitUniform == (Kind = "uniform" /\ seq = <<>>) => PrintT(<<"CASE", ToJson(
     [k |-> "uniform", B |-> B, P |-> P,
      cases |-> [n \in 1..(Pow2(P) + 3) |-> [n |-> n - 1, accept |-> AcceptUniform(n - 1, P),
                  table |-> IF AcceptUniform(n - 1, P) THEN Rows(UniformTable(n - 1, P)) ELSE <<>>]]])>>)
-Emit == EmitFixed /\ EmitFast /\ EmitLeaky /\ EmitLeakyBig /\ EmitUniform /\ EmitDiag
+Emit == EmitFixed /\ EmitFast /\ EmitLeaky /\ EmitLeakyBig /\ EmitUniform /\ EmitDiag /\ EmitFloatClass
 =============================================================================
